@@ -685,7 +685,7 @@ impl Gen<'_> {
             if !exact_ok || !self.sim.buckets.contains_key(&b) || self.conflicts(&b, &k) {
                 return None;
             }
-            // (since cf67827 a complete replaces the side files of the object it replaces: a clean history may complete
+            // (since 47e9b00 a complete replaces the side files of the object it replaces: a clean history may complete
             // over an object that has metadata or recorded checksums)
             // a single small part unless the parts are big enough
             pl = format!("+{}", run.iter().map(|(n, _)| n.to_string()).collect::<Vec<_>>().join(","));
@@ -715,7 +715,7 @@ impl Gen<'_> {
         if let Some(i) = i {
             if self.sim.ups[i].alive && self.sim.ups[i].owner == w {
                 let exact = pl == format!("+{}", run.iter().map(|(n, _)| n.to_string()).collect::<Vec<_>>().join(","));
-                // since 0932917 the real backend consumes the upload id only when the complete succeeds (an empty part list
+                // since 0096ef4 the real backend consumes the upload id only when the complete succeeds (an empty part list
                 // "succeeds" too); after a failed complete the upload stays and later operations keep addressing it
                 if good || (exact && exact_ok) || pl == "+" {
                     self.sim.ups[i].alive = false;
